@@ -107,6 +107,10 @@ pub fn gen_case(rng: &mut Rng, cfg: &GenCfg) -> Case {
                         HrPath::ContainerReaderDeser,
                         HrPath::SingleWriterSer,
                         HrPath::SingleReaderDeser,
+                        HrPath::SpecificDatumReaderDeser,
+                        HrPath::SpecificSingleReaderDeser,
+                        HrPath::SingleWriterBuilderSer,
+                        HrPath::WriteAvroDatumRef,
                     ]),
                 },
                 Setting::Cmp => {
@@ -205,7 +209,7 @@ fn gen_use_alloc(wr: &mut Rng, alloc_vals: &[u64], sizes: &Sizes, cfg: &GenCfg) 
 /// A scenario for the preempting engine: every thread's first operation is on the same setting
 /// (a first-use race can only happen there), at least one of them a setter, each followed by a
 /// user of that setting.
-pub fn gen_race_case(rng: &mut Rng, setting: Setting, cfg: &GenCfg) -> Case {
+pub fn gen_race_case(rng: &mut Rng, setting: Setting, setters_only_first: bool, cfg: &GenCfg) -> Case {
     let mut wr = rng.fork("race");
     let nthreads = wr.range(2, 3) as usize;
     let sizes = exec::sizes();
@@ -214,8 +218,9 @@ pub fn gen_race_case(rng: &mut Rng, setting: Setting, cfg: &GenCfg) -> Case {
     let mut tags = vec![];
     let mut firsts: Vec<Option<Op>> = vec![];
     for t in 0..nthreads {
-        // thread 0 starts with a setter, thread 1 with a first use; a third thread with either
-        let setter = t == 0 || (t > 1 && wr.chance(1, 2));
+        // thread 0 starts with a setter; thread 1 with a first use, or (`setters_only_first`) with a
+        // second setter; a third thread with either
+        let setter = t == 0 || (t == 1 && setters_only_first) || (t > 1 && wr.chance(1, 2));
         if !setter {
             firsts.push(None);
             continue;
